@@ -208,6 +208,11 @@ def make_cases(ctx: Ctx, rng):
             if not ctx.quick or si % 2 == 0:
                 add(start, step, [{"kind": "addTarget", "t0": a * step},
                                   {"kind": "impulse", "t0": min(n, a + 1) * step, "planned": True, "target": "added"}])
+            # a target that joins and maneuvers IN THE SAME STEP (addition inside the step, impulse later in it / on its end):
+            # the roster the maneuver is checked against is the one AFTER the step's additions (seed C01/13)
+            add(start, step, [{"kind": "addTarget", "t0": (a - 1) * step + 1},
+                              {"kind": "impulse", "t0": a * step, "planned": si % 2 == 0, "target": "added"},
+                              {"kind": "impulse", "t0": min(n, a + 1) * step, "planned": True, "target": "added", "dv_scale": 2.0}])
             # a maneuver addressed to a target that is NOT YET in the scenario (skipped), the target joins, a later maneuver
             # of it must be applied; and a maneuver still scheduled for a target that has been removed (skipped)
             if a + 2 <= n:      # step a: maneuver of the absent target; step a+1: it joins; step a+2: its next maneuver
